@@ -313,6 +313,11 @@ func runCapacity(size int64, prio gen.MessagePriority, addr string, fb string) {
 		insts = append(insts, fbInst)
 		opts.Fallback = gen.ProcessFallback{Enable: true, Name: fbName, Tag: tag}
 	}
+	if fb == "missing" {
+		// fallback enabled but nobody is registered under its name: the overflow can be delivered nowhere,
+		// so a send beyond the capacity must report an error (judge: accepted => handled exactly once)
+		opts.Fallback = gen.ProcessFallback{Enable: true, Name: uniq("nofb"), Tag: tag}
+	}
 	rc, err := spawnRecv(c, id, opts, setup{Alias: true})
 	if err != nil {
 		r.incon = "spawn receiver: " + err.Error()
@@ -382,7 +387,7 @@ func runAllCapacity() {
 	for _, sz := range []int64{1, 2, 5, 64} {
 		for _, p := range prios {
 			for _, addr := range []string{"pid", "name", "alias"} {
-				for _, fb := range []string{"off", "on"} {
+				for _, fb := range []string{"off", "on", "missing"} {
 					runCapacity(sz, p, addr, fb)
 				}
 			}
